@@ -648,6 +648,36 @@ def r12(ctx):
         ctx.ok(construct, f'{len(COLUMN_PROBES)} probes: NAME<i> is element i of the cell, NAME is the whole cell')
 
 
+def r13(ctx):
+    """table level on read: rows become regions in row order, a row the reader skips (returns None for) leaves the others
+    alone, and a table with a foreign column is rejected with FITSParserError."""
+    m = ctx.model
+    mod = next((mi for n, mi in m.modules.items() if n.endswith('io.fits.read')), None)
+    ctx.need(mod is not None and 'parse_table' in mod.functions and 'parse_row' in mod.functions, 'fits read',
+             'parse_table / parse_row not found')
+    pt, pr = mod.functions['parse_table'], mod.functions['parse_row']
+
+    def run(cols):
+        res = iter([Obj('Region', {}, 'A'), Const(None), Obj('Region', {}, 'C')])
+        rows = Tup(tuple(Obj('Row', {}, f'row{i}') for i in range(3)), 'list')
+        tab = Obj('Table', {'colnames': Tup(tuple(Const(c) for c in cols), 'list'), '__items__': rows}, 'table')
+        ev = Evaluator(m, hooks={pr.qualname: lambda e, a, k: next(res)})
+        out = ev.run(pt, [tab], {})
+        definite = [n for pc, n, _ in out.raises if not [c for c in pc if not (isinstance(c, Const) and c.v is True)]]
+        return [show(v, 100) for _, v in out.returns], definite
+    got, raised = run(('X', 'Y', 'SHAPE', 'R', 'ROTANG', 'COMPONENT'))
+    got2, raised2 = run(('X', 'Y', 'SHAPE', 'FOO'))
+    probs = []
+    if got != ['[A, C]'] or raised:
+        probs.append(f'rows (A, skipped, C) become {got} (raises {raised}); expected [A, C]')
+    if 'FITSParserError' not in raised2:
+        probs.append(f'a table with the foreign column FOO gives {got2} (raises {raised2}); expected FITSParserError')
+    if probs:
+        ctx.bad('parse_table', 'table-assembly', '; '.join(probs), pt.loc())
+    else:
+        ctx.ok('parse_table', 'rows in order, skipped rows dropped, foreign columns rejected')
+
+
 RULES = [
     RuleDef('R1', 'SHAPE name pipeline x include (writer name known to reader; "!" iff excluded)', r1, 8),
     RuleDef('R2', 'semi-axis halving/doubling agreement x include', r2, 7),
@@ -663,4 +693,5 @@ RULES = [
     RuleDef('R10', 'table assembly: SHAPE strings untouched, columns = row values in row order', r10, 1),
     RuleDef('R11', 'column padding never becomes polygon vertices', r11, 1),
     RuleDef('R12', 'column addressing on read (probe row)', r12, 1),
+    RuleDef('R13', 'table rows -> regions: in order, skipped rows dropped, foreign columns rejected', r13, 1),
 ]
